@@ -731,6 +731,51 @@ Theorem C07_decoded_file_is_read_bytes_channels : forall file si frames e rp,
       nth_error (FlacReaders.Spec.chan_pcm F c) i = nth_error (concat frames) (i * N.to_nat (FlacCodec.Ast.si_channels si) + c)).
 Proof. exact decoded_file_is_read_bytes_channels. Qed.
 
+(* C15, the completeness direction of the length contract with the REAL block encoder plugged in ("exact fill => Ok"):
+   parameters the constructor accepts, samples in range, at least one whole PCM frame, fewer than 2^36 samples, and a
+   declared total (if any) that is exactly what is written => the run, under any chunking, returns a finished file;
+   for the three front-ends.  (The writers area proves the soundness direction, C15_length_contract_sample.) *)
+Theorem C15_exact_fill_succeeds_sample : forall o L md5, (forall l, length (md5 l) = 16%nat) ->
+  forall p rate bps ch, rate < 2 ^ 20 -> 1 <= bps -> bps <= 32 -> 1 <= ch -> ch <= 8 ->
+  forall wo total w (chunks : list (list Z)),
+  options_wf wo ->
+  sample_new p [] wo rate bps ch total = Ok w ->
+  forallb (FlacCodec.Wf.fits bps) (concat chunks) = true ->
+  let W := N.of_nat (length (concat chunks)) / ch in
+  1 <= W -> N.of_nat (length (concat chunks)) < 2 ^ 36 ->
+  match total with Some T => T = ch * W | None => True end ->
+  exists f, sample_run (encB o L rate bps) md5 p w chunks = Ok f /\ FlacWriters.Encoder_proofs.counters_fit (f_enc f).
+Proof. exact sample_run_succeeds. Qed.
+
+Theorem C15_exact_fill_succeeds_byte : forall o L md5, (forall l, length (md5 l) = 16%nat) ->
+  forall p rate bps ch, rate < 2 ^ 20 -> 1 <= bps -> bps <= 32 -> 1 <= ch -> ch <= 8 ->
+  forall en wo total w (chunks : list (list N)),
+  options_wf wo ->
+  byte_new p en [] wo rate bps ch total = Ok w ->
+  Forall byte_ok (concat chunks) ->
+  let n := N.to_nat (bytes_per_sample_of bps) in
+  let samples := decode_bytes en n (concat chunks) in
+  forallb (FlacCodec.Wf.fits bps) samples = true ->
+  let W := N.of_nat (length samples) / ch in
+  1 <= W -> N.of_nat (length samples) < 2 ^ 36 ->
+  match total with Some T => T = bytes_per_sample_of bps * ch * W | None => True end ->
+  exists f, byte_run (encB o L rate bps) md5 p w chunks = Ok f.
+Proof. exact byte_run_succeeds. Qed.
+
+Theorem C15_exact_fill_succeeds_channel : forall o L md5, (forall l, length (md5 l) = 16%nat) ->
+  forall p rate bps ch, rate < 2 ^ 20 -> 1 <= bps -> bps <= 32 -> 1 <= ch -> ch <= 8 ->
+  forall wo total w (chunks : list (list (list Z))),
+  options_wf wo ->
+  channel_new p [] wo rate bps ch total = Ok w ->
+  Forall (chunk_ok (N.to_nat ch)) chunks ->
+  let all := cconcat (N.to_nat ch) chunks in
+  forallb (FlacCodec.Wf.fits bps) (concat all) = true ->
+  let m := length (hd [] all) in
+  (1 <= m)%nat -> N.of_nat m < 2 ^ 36 ->
+  match total with Some T => T = N.of_nat m | None => True end ->
+  exists f, channel_run (encB o L rate bps) md5 p w chunks = Ok f.
+Proof. exact channel_run_succeeds. Qed.
+
 Print Assumptions C07_decoded_file_is_read_bytes_channels.
 Print Assumptions C03_valid_file_is_read.
 Print Assumptions C07_decoded_file_is_read.
@@ -793,3 +838,6 @@ Example C01_end_to_end_nonvacuous :
   | _ => False
   end.
 Proof. vm_compute. repeat split; reflexivity. Qed.
+Print Assumptions C15_exact_fill_succeeds_sample.
+Print Assumptions C15_exact_fill_succeeds_byte.
+Print Assumptions C15_exact_fill_succeeds_channel.
